@@ -186,15 +186,23 @@ Proof. intros Hk Hc (o & Ho & Hu & Hh). unfold hobj in Ho. unfold do_find. rewri
   destruct (lookup r (getm k s)) as [e|]; [|discriminate]. rewrite Ho, Hu, Hh. destruct k; try reflexivity. congruence. Qed.
 
 (* first lookup of a registered publication / of a cached subscription or counter: a new handle, then held *)
+Definition first_obj (k : kind) (e : entry) (o' : obj) : Prop :=
+  match e_obj e with
+  | Some o => o_d1 o' = o_d1 o /\ o_d2 o' = o_d2 o /\ o_d3 o' = o_d3 o /\ o_closed o' = o_closed o /\ o_images o' = o_images o
+  | None => o_d1 o' = e_d1 e /\ o_d2 o' = e_d3 e /\ o_d3 o' = (match k with KPub => e_d4 e | _ => 0 end) /\ o_closed o' = false /\ o_images o' = []
+  end.
+
 Lemma find_first c k r s e :
   k <> KDest -> closed s = false -> lookup r (getm k s) = Some e ->
   (match e_obj e with Some o => o_user o = false | None => e_status e = Registered /\ (k = KPub \/ k = KXPub) end) ->
-  exists s', do_find c k r s = (s', (Ok [next_h s], [], [])) /\ held k r (next_h s) s' /\ next_h s' = next_h s + 1 /\
+  exists s', do_find c k r s = (s', (Ok [next_h s], [], [])) /\
+             (exists o', hobj k r s' = Some o' /\ o_user o' = true /\ o_h o' = next_h s /\ first_obj k e o') /\
+             next_h s' = next_h s + 1 /\
              (forall k' r', k' <> k \/ r' <> r -> lookup r' (getm k' s') = lookup r' (getm k' s)).
-Proof. intros Hk Hc Hl Hsh. unfold do_find. rewrite Hc, Hl.
+Proof. intros Hk Hc Hl Hsh. unfold do_find. rewrite Hc, Hl. unfold first_obj.
   destruct (e_obj e) as [o|] eqn:Eo.
   - rewrite Hsh. eexists. split; [destruct k; try reflexivity; congruence|]. split; [|split].
-    + unfold held, hobj. rewrite getm_setm_same, getm_set_next_h, lookup_upd_same, Hl. cbn. eexists. split; [reflexivity|]. cbn. auto.
+    + unfold hobj. rewrite getm_setm_same, getm_set_next_h, lookup_upd_same, Hl. cbn. eexists. split; [reflexivity|]. cbn. tauto.
     + rewrite setm_next_h. reflexivity.
     + intros k' r' Hne. rewrite getm_setm. destruct (kind_eqb k' k) eqn:E; rewrite getm_set_next_h; auto.
       apply kind_eqb_eq in E. subst. apply lookup_upd_other. destruct Hne; congruence.
@@ -205,8 +213,15 @@ Proof. intros Hk Hc Hl Hsh. unfold do_find. rewrite Hc, Hl.
       apply kind_eqb_eq in E. subst. apply Hm. destruct Hne; congruence. }
     destruct Hkk; subst k; (eexists; split; [reflexivity|]; split; [|split]);
       try (rewrite setm_next_h; reflexivity);
-      try (unfold held, hobj; rewrite getm_setm_same, getm_set_next_h, lookup_upd_same, Hl; cbn; eexists; split; [reflexivity|]; cbn; auto);
+      try (unfold hobj; rewrite getm_setm_same, getm_set_next_h, lookup_upd_same, Hl; cbn; eexists; split; [reflexivity|]; cbn; tauto);
       intros k' r' Hne; apply (Hfr k' r' (upd r _)); auto; intros; apply lookup_upd_other; auto. Qed.
+
+Lemma find_first_held c k r s e :
+  k <> KDest -> closed s = false -> lookup r (getm k s) = Some e ->
+  (match e_obj e with Some o => o_user o = false | None => e_status e = Registered /\ (k = KPub \/ k = KXPub) end) ->
+  exists s', do_find c k r s = (s', (Ok [next_h s], [], [])) /\ held k r (next_h s) s' /\ next_h s' = next_h s + 1.
+Proof. intros Hk Hc Hl Hsh. destruct (find_first c k r s e Hk Hc Hl Hsh) as (s' & A & (o' & B1 & B2 & B3 & _) & C & _).
+  exists s'. repeat split; auto. exists o'. auto. Qed.
 
 (* an errored registration: the error is reported by the first lookup and the registration is gone *)
 Lemma find_errored c k r s e :
